@@ -167,7 +167,15 @@ def gen_dense(rng):
             W = rng.integers(1, 9, size=m) / 4.0
             if wk == 2 and m > 1:
                 W[int(rng.integers(0, m))] = 0.0
-        f = {"kind": fk, "m": m, "A": tolist(A), "W": None if W is None else [float(w) for w in W],
+        # the weighting operator as an object: None / an explicit Identity / a ScaledIdentity (uniform weight c != 1) / a Diagonal
+        wk2 = int(rng.integers(0, 4))
+        wkind = "none" if W is None else "diag"
+        if wk2 == 0 and W is None:
+            wkind = "identity"
+        elif wk2 == 1:
+            wkind = "scaled"
+            W = np.full(m, float(rng.choice([0.25, 0.5, 2.0, 3.0])))
+        f = {"kind": fk, "m": m, "A": tolist(A), "W": None if W is None else [float(w) for w in W], "Wkind": wkind,
              "scale": float(rng.choice([0.25, 0.5, 1.0, 2.0])), "y": tolist(lu.rnd(rng, (m,), cplx, dy))}
     terms = []
     for i in range(int(rng.integers(1, 4))):
@@ -251,7 +259,13 @@ def _build_dense(case, solver_obj):
         cf = case["f"]
         A = _arr(cf["A"], cplx)
         Aop = linop.MatrixOperator(jnp.array(A.reshape(cf["m"], n), dtype=dt)) if cf["kind"] == "matrix" else linop.Diagonal(jnp.array(A, dtype=dt))
-        W = None if cf["W"] is None else linop.Diagonal(jnp.array(np.array(cf["W"]), dtype=np.float64))
+        wkind = cf.get("Wkind", "none" if cf["W"] is None else "diag")
+        if wkind == "identity":
+            W = linop.Identity((cf["m"],), input_dtype=np.float64)
+        elif wkind == "scaled":
+            W = linop.ScaledIdentity(float(cf["W"][0]), (cf["m"],), input_dtype=np.float64)
+        else:
+            W = None if cf["W"] is None else linop.Diagonal(jnp.array(np.array(cf["W"]), dtype=np.float64))
         hist = cf.get("history")
         f = loss.SquaredL2Loss(y=jnp.array(_arr(cf["y"], cplx), dtype=dt), A=Aop, scale=cf["scale"] if not hist else hist["scale0"], W=W)
         if hist:
@@ -374,6 +388,7 @@ def run_dense(ctx, model, case):
     if case["f"] is not None:
         ctx.count(f"dense:scale={case['f']['scale']}")
         ctx.count("dense:W=" + ("none" if case["f"]["W"] is None else "zeros" if 0.0 in case["f"]["W"] else "positive"))
+        ctx.count("dense:Wop=" + case["f"].get("Wkind", "?"))
     if case["f"] is not None and case["f"].get("history"):
         ctx.count("history:" + case["f"]["history"]["kind"])
     ctx.count(f"dense:terms={len(case['terms'])}")
@@ -493,7 +508,8 @@ def gen_circ(rng):
         ks = [int(rng.integers(1, s + 1)) for s in shape]
         wk = int(rng.integers(0, 5))
         f = {"kind": fk, "h": tolist(lu.rnd(rng, ks, cplx, False, 1.0)), "ks": ks, "scale": float(rng.choice([0.25, 0.5, 1.0, 2.0])),
-             "y": tolist(lu.rnd(rng, shape, cplx, False)), "W": None if wk else [float(w) for w in (rng.integers(1, 9, size=int(np.prod(shape))) / 4.0)]}
+             "y": tolist(lu.rnd(rng, shape, cplx, False)), "W": None if wk else [float(w) for w in (rng.integers(1, 9, size=int(np.prod(shape))) / 4.0)],
+             "Wop": "identity" if wk in (1, 2) else "none"}
     terms = []
     for i in range(int(rng.integers(1, 4))):
         ck = str(rng.choice(["identity", "conv", "fd"])) if i > 0 else "identity"
@@ -527,6 +543,8 @@ def _build_circ(case, sv=None):
         else:
             Aop = linop.Identity(shape, input_dtype=dt)
         W = None if cf["W"] is None else linop.Diagonal(jnp.array(np.array(cf["W"]).reshape(shape), dtype=np.float64))
+        if cf["W"] is None and cf.get("Wop") == "identity":
+            W = linop.Identity(shape, input_dtype=np.float64)
         f = loss.SquaredL2Loss(y=jnp.array(_arr(cf["y"], cplx, shape), dtype=dt), A=Aop, scale=cf["scale"], W=W)
     C_list = []
     for t in case["terms"]:
@@ -1301,12 +1319,16 @@ STRATA = {
         lambda c: c["cplx"] and _has(c, "matrix") and c["f"] is not None and c["f"]["kind"] == "matrix" and c["f"]["W"] is not None,
         lambda c: c["cplx"] and all(t["kind"] == "diagonal" for t in c["terms"]) and c["f"] is not None and c["f"]["kind"] == "diagonal",
         lambda c: (not c["cplx"]) and _has(c, "matrix") and c["f"] is None,
+        lambda c: c["f"] is not None and c["f"].get("Wkind") == "scaled" and c["f"]["kind"] == "matrix",
+        lambda c: c["f"] is not None and c["f"].get("Wkind") == "scaled" and c["cplx"],
+        lambda c: c["f"] is not None and c["f"].get("Wkind") == "identity",
         lambda c: c["f"] is not None and c["f"]["kind"] == "matrix" and c["f"]["m"] < c["n"] and all(t["kind"] != "matrix" for t in c["terms"])
         and c["f"]["W"] is not None and 0.0 not in c["f"]["W"],  # Woodbury path of the factorisation solver
     ],
     "history": [
         lambda c: c["cplx"] and _has(c, "matrix"),
         lambda c: c["f"]["W"] is not None and c["f"]["history"]["kind"] == "set_scale-mul",
+        lambda c: c["f"].get("Wkind") == "scaled",
     ],
     "circ": [
         lambda c: c["cplx"] and c["f"] is not None and c["f"]["kind"] == "identity" and c["f"]["W"] is None,
